@@ -300,6 +300,10 @@ def build(cfg):
     elif cfg["attach"] == "decoder":
         d = cfg["dec"]
         dec = csr.Decoder(addr_width=d["aw"], data_width=mon.bus.data_width, alignment=d["al"])
+        # the decoder's map is read while still empty (a layout printed too early): what it says later must not
+        # depend on having been asked
+        mm_ = dec.bus.memory_map
+        list(mm_.all_resources()); list(mm_.windows()); list(mm_.window_patterns()); mm_.decode_address(0)
         try:
             placed = dec.add(mon.bus, name="mon", addr=d["addr"])
         except (ValueError, TypeError, KeyError, AssertionError) as e:
@@ -311,6 +315,7 @@ def build(cfg):
             from amaranth_soc.memory import MemoryMap
             other = csr.Interface(addr_width=1, data_width=mon.bus.data_width, path=("other",))
             other.memory_map = MemoryMap(addr_width=1, data_width=mon.bus.data_width)
+            list(mm_.all_resources()); list(mm_.window_patterns()); mm_.decode_address(placed[0])
             dec.add(other, name="other", addr=0)
         m = Module()
         m.submodules.dec = dec
